@@ -29,7 +29,6 @@ Selected == (h % Mods[d + 1]) = (Sel % Mods[d + 1])
 
 \* ------------------------------------------------------------------ type-level queries (ids as printed by the harness)
 Q(n, r) == [n |-> n, r |-> r]
-Under(x) == IF x.k = "named" THEN x.u ELSE x
 ChanDirStr(dir) == IF dir = "both" THEN "chan" ELSE IF dir = "send" THEN "chan<-" ELSE "<-chan"
 SigLine(f) ==
   LET ins  == [i \in 1..Len(f.ps) |-> Str(IF f.v /\ i = Len(f.ps) THEN Slice(f.ps[i]) ELSE f.ps[i])]
@@ -74,7 +73,8 @@ CallCases(v) ==
   IF KindOf(v.t) = "interface" /\ v.nil THEN <<>>
   ELSE LET o == Operand(v)
            L == SelectSeq(Listed(o.t), ExportedM)
-       IN [i \in 1..Len(L) |-> [m |-> L[i], i |-> i - 1, r |-> CallResult(o, L[i])]]
+           all == [i \in 1..Len(L) |-> [m |-> L[i], i |-> i - 1, r |-> CallResult(o, L[i])]]
+       IN SelectSeq(all, LAMBDA c : c.r # Unmodelled)
 
 ValCase(v) == [v |-> Strip(v), fm |-> FmtCases(v), calls |-> CallCases(v), self |-> BoolStr(SelfEq(v))]
 DeqPairs(n) == {p \in (1..n) \X (1..n) : p[1] <= p[2]}
